@@ -1,6 +1,10 @@
 #!/bin/bash
 # run every claimed check (quick tier) on the current tree, in sequence; prints one line per property
 cd "$(dirname "$0")/.."
-for p in $(python3 -c "import json; print(' '.join(c['property_id'] for c in json.load(open('MANIFEST.json'))['checks']))"); do
-  ./check $p --tier ${1:-quick} 2>&1 | grep -E "^(OK|VIOLATION|KNOWN-FINDING)" | cut -c1-160
+# usage: run_all.sh [tier] [ids...]
+TIER=${1:-quick}; shift
+IDS="$@"
+[ -z "$IDS" ] && IDS=$(python3 -c "import json; print(' '.join(c['property_id'] for c in json.load(open('MANIFEST.json'))['checks']))")
+for p in $IDS; do
+  ./check $p --tier $TIER 2>&1 | grep -E "^(OK|VIOLATION|KNOWN-FINDING)" | cut -c1-160
 done
